@@ -12,10 +12,10 @@
 (***************************************************************************)
 EXTENDS Integers, Sequences, FiniteSets, TLC
 CONSTANTS NT, LevelsC, MaxT, NBr, PerBr, Type, MRA, Ckpt, Vals, Top, MaxRun
-VARIABLES a_cf, a_st, a_lastr, a_rung, a_br, a_ms, a_rf, a_cap, a_thr, a_nstart, a_flags, a_reps, a_reached, a_latest, a_tie, a_pobs, a_ppend, a_lur, a_fresh,
-          b_cf, b_st, b_lastr, b_rung, b_br, b_ms, b_rf, b_cap, b_thr, b_nstart, b_flags, b_reps, b_reached, b_latest, b_tie, b_pobs, b_ppend, b_lur, b_fresh
-avars == <<a_cf, a_st, a_lastr, a_rung, a_br, a_ms, a_rf, a_cap, a_thr, a_nstart, a_flags, a_reps, a_reached, a_latest, a_tie, a_pobs, a_ppend, a_lur, a_fresh>>
-bvars == <<b_cf, b_st, b_lastr, b_rung, b_br, b_ms, b_rf, b_cap, b_thr, b_nstart, b_flags, b_reps, b_reached, b_latest, b_tie, b_pobs, b_ppend, b_lur, b_fresh>>
+VARIABLES a_cf, a_st, a_lastr, a_rung, a_br, a_ms, a_rf, a_cap, a_thr, a_nstart, a_flags, a_reps, a_reached, a_latest, a_cmpl, a_tie, a_pobs, a_ppend, a_lur, a_fresh,
+          b_cf, b_st, b_lastr, b_rung, b_br, b_ms, b_rf, b_cap, b_thr, b_nstart, b_flags, b_reps, b_reached, b_latest, b_cmpl, b_tie, b_pobs, b_ppend, b_lur, b_fresh
+avars == <<a_cf, a_st, a_lastr, a_rung, a_br, a_ms, a_rf, a_cap, a_thr, a_nstart, a_flags, a_reps, a_reached, a_latest, a_cmpl, a_tie, a_pobs, a_ppend, a_lur, a_fresh>>
+bvars == <<b_cf, b_st, b_lastr, b_rung, b_br, b_ms, b_rf, b_cap, b_thr, b_nstart, b_flags, b_reps, b_reached, b_latest, b_cmpl, b_tie, b_pobs, b_ppend, b_lur, b_fresh>>
 A == INSTANCE AsyncHB WITH
        cf <- a_cf,
        st <- a_st,
@@ -31,6 +31,7 @@ A == INSTANCE AsyncHB WITH
        reps <- a_reps,
        reached <- a_reached,
        latest <- a_latest,
+       cmpl <- a_cmpl,
        tie <- a_tie,
        pobs <- a_pobs,
        ppend <- a_ppend,
@@ -51,6 +52,7 @@ B == INSTANCE AsyncHB WITH
        reps <- b_reps,
        reached <- b_reached,
        latest <- b_latest,
+       cmpl <- b_cmpl,
        tie <- b_tie,
        pobs <- b_pobs,
        ppend <- b_ppend,
@@ -61,7 +63,7 @@ Levels == SetToSortSeq(LevelsC, LAMBDA x, y : x < y)
 PashaCap0 == Levels[IF Len(Levels) = 1 THEN 1 ELSE IF Len(Levels) - 1 < 2 THEN Len(Levels) - 1 ELSE 2]
 Conf(ismin) == [levels |-> Levels, maxt |-> MaxT, nbr |-> NBr, perbr |-> PerBr, type |-> Type, min |-> ismin, mra |-> MRA,
                 ckpt |-> Ckpt, nthr |-> 0, vals |-> Vals, costs |-> {0}, faults |-> FALSE,
-                cap0 |-> IF Type = "pasha" THEN PashaCap0 ELSE MaxT, sd |-> "none", myopic |-> FALSE]
+                cap0 |-> IF Type = "pasha" THEN PashaCap0 ELSE MaxT, sd |-> "none", myopic |-> FALSE, completes |-> FALSE]
 Flip(v) == Top - v
 Init == A!InitCommon(Conf(TRUE)) /\ B!InitCommon(Conf(FALSE))
 
